@@ -354,6 +354,31 @@ def r5_mode_suffix_tables(ctx):
     ctx.ob(bo.where, "a .gz suffix is stripped once to find the format suffix; .gz and .bam are gzip containers", ok, "", key="C03-R5|gz-suffix")
 
 
+def _optional_int_formatter(ctx):
+    """Optional[int] columns: the formatter writes the missing marker for missing values only.  Integers have no missing value; a test on the numbers'
+    truthiness (`not np.any(number)`, `number == 0`) would write a column of zeros as '.' - and differently for every piece of a table written in pieces."""
+    f = ctx.index.func("bionumpy.io.dump_csv", "optional_ints_to_strings")
+    num = f.params[0]
+    n = 0
+    for t in [x for x in body_walk(f.node) if isinstance(x, ast.If)]:
+        branches = [(t.body, True), (t.orelse, False)]
+        for body, pol in branches:
+            if not any(isinstance(r, ast.Return) and "missing_string" in u(r.value) for r in body):
+                continue
+            n += 1
+            test = t.test
+            mentions_nan = any(isinstance(x, ast.Attribute) and x.attr in ("nan", "isnan") for x in ast.walk(test)) or any(isinstance(x, ast.Call) and u(x.func) in ("np.isnan", "math.isnan") for x in ast.walk(test))
+            truthy = [x for x in ast.walk(test) if isinstance(x, ast.Call) and u(x.func) in ("np.any", "np.all", "any", "all") and x.args and u(x.args[0]) == num]
+            cmp_zero = [x for x in ast.walk(test) if isinstance(x, ast.Compare) and any(isinstance(c, ast.Constant) and c.value == 0 for c in [x.left] + x.comparators)]
+            ok = mentions_nan or not (truthy or cmp_zero)
+            if not mentions_nan and not truthy and not cmp_zero:
+                raise Unrecognised(f"{f.where}: the all-missing shortcut is guarded by an unknown test: {u(test)}")
+            ctx.ob(f.where, "the missing marker is written only for values that are missing (NaN); the numeric value 0 is written as 0", ok, u(test), key="C03-R6|optional-int-missing")
+    rets = [r for r in body_walk(f.node) if isinstance(r, ast.Return) and sym.same(r.value, f"ints_to_strings({num})")]
+    ctx.ob(f.where, "present values are formatted with the exact integer formatter", bool(rets), "", key="C03-R6|optional-int-format")
+    ctx.count("missing-marker shortcuts of the optional int formatter", n)
+
+
 def r6_streams_and_text_ranges(ctx):
     """(a) every non-empty piece of a stream is written: the loops over a stream have no early exit; (b) the accessor that supplies untouched
     columns as text on the lazy write path returns file text (never the typed/decoded column); (c) stale-shape idiom (shared with C07)."""
@@ -417,6 +442,7 @@ def r6_streams_and_text_ranges(ctx):
     ctx.floor("line-group buffer classes with a text range accessor", n, 3)
     from .c07 import r5_stale_shape
     r5_stale_shape(ctx)
+    _optional_int_formatter(ctx)
 
 
 from ..through_time import make_rule as _mk_tt
@@ -432,6 +458,10 @@ def _shared_tables_not_written(ctx):
     from .c20 import r3_self_array_writes, IO_TABLE_MODULES
     r3_self_array_writes(ctx, IO_TABLE_MODULES)   # index tables are shared between a table and its selections: never written in place
 
+def _late_bound_constants(ctx):
+    from .c05 import r7_late_bound_constants
+    r7_late_bound_constants(ctx)   # format constants are read through cls / self so that subclass formats keep their own
+
 RULES = [
     ("C03-R1", r1_writer_exhaustive),
     ("C03-R2", r2_header_once),
@@ -443,4 +473,5 @@ RULES = [
     ("C03-R7", _selection_tables),
     ("C03-R8", _lazy_concatenate),
     ("C03-R9", _shared_tables_not_written),
+    ("C03-R10", _late_bound_constants),
 ]
